@@ -47,6 +47,19 @@ CLAIMED["C04"] = dict(
     note=NOTE + "Modelled, not verified: operand classification and expression evaluation feeding the stubs (exercised through the real parser/compiler with several spellings).",
 )
 
+CLAIMED["C06"] = dict(
+    text="Theorems over all Int values, addresses, moduli and strings of any length about the value-level model of get_as_int and the "
+         "directive bodies: accepted iff |v| < 2^n (unsigned: 0 <= v < 2^n) and stored as v mod 2^n; .byte/.word/.dword emit exactly the "
+         "little-endian bytes (dword: high word first) or abort with value-out-of-bounds; word data at an odd address reports odd-address; "
+         "implicit word list = .word; .blkb/.blkw/.even/.odd/.align emit zero fill of exactly the stated/needed length ((a+len) mod m = 0, "
+         "len < m); negative counts and zero/negative moduli are errors; .ascii/.asciz emit exactly the concatenated encodings, <n> is the "
+         "byte n or an error, an unencodable chunk is reported. Tie: boundary-complete correspondence through the real assembler for "
+         "every directive, 0-8 operands, both parities, 5 charsets, every escape form.",
+    design_ref="DESIGN.md §5 C06",
+    technique="Lean 4 theorems (omega, induction over operand lists and chunks) + boundary-complete model/implementation correspondence",
+    note=NOTE + "Modelled, not verified: operand evaluation, escape parsing and Metacommand.compile_insn's cooking loop (exercised through the real parser/compiler); utf-8/latin-1 re-stated in Lean, koi8-r/cp866 taken from the stdlib as tables.",
+)
+
 PENDING_REASON = "check not built yet (build in progress; see DESIGN.md §8 for the order)"
 
 
